@@ -49,6 +49,7 @@ type FnRun struct {
 	loops    map[*ssa.BasicBlock]*loopInfo
 	clearRanges map[*ssa.Range]bool
 	mergeInto   *State
+	stalePre    []string
 	extraEnv    map[string]Val // captured variables of a closure whose contract is being applied
 	mergeMade   []*Obj
 	ord      map[ssa.Instruction]int
@@ -191,9 +192,18 @@ func (ex *Exec) verifyCase(fn *ssa.Function, key string, ctr *Contract, cs *Case
 	}
 	// preconditions
 	if ctr != nil {
-		for _, rq := range ctr.Requires {
-			t := fr.evalBool(rq.E, &Env{st: st, old: st, vars: env, fr: fr})
-			st.assume(t)
+		for i, rq := range ctr.Requires {
+			// a precondition that mentions something the function no longer has (typically a captured
+			// variable a closure stopped capturing) cannot be stated any more: that is reported as a
+			// failed obligation, conjunct by conjunct, and the remaining conjuncts are still assumed
+			for j, cj := range exprConjuncts(rq.E) {
+				t, msg := fr.tryEvalBool(cj, &Env{st: st, old: st, vars: env, fr: fr})
+				if msg != "" {
+					fr.stalePre = append(fr.stalePre, fmt.Sprintf("%d.%d|%s   [%s]", i+1, j+1, rq.Src, msg))
+					continue
+				}
+				st.assume(t)
+			}
 		}
 	}
 	if cs != nil {
@@ -207,6 +217,10 @@ func (ex *Exec) verifyCase(fn *ssa.Function, key string, ctr *Contract, cs *Case
 	fr.entry = entry
 	fr.entryMaxObj = ex.objCount
 	fr.checkSitesExist(st)
+	for _, sp := range fr.stalePre {
+		parts := strings.SplitN(sp, "|", 2)
+		fr.oblige(st, "pre-stale", parts[0], tFalse, nil, "precondition can no longer be evaluated over this function: "+parts[1])
+	}
 	fr.runFrom(st, fn.Blocks[0], nil, 0, func(st *State, results []Val) {
 		fr.checkPost(st, results)
 	})
@@ -622,6 +636,26 @@ func (fr *FnRun) checkPost(st *State, results []Val) {
 	}
 	// named locals keep their value at the return point (parameters and results take precedence)
 	fr.bindLocals(st, env)
+	// loop-carried variables of the function's own loops, as named by their loop specs:
+	// L<ordinal>_<name> is the value the variable had when the loop head was last passed
+	for _, li := range fr.loops {
+		if li.spec == nil {
+			continue
+		}
+		i := 0
+		for _, in := range li.head.Instrs {
+			ph, ok := in.(*ssa.Phi)
+			if !ok {
+				break
+			}
+			if i < len(li.spec.Names) && li.spec.Names[i] != "_" {
+				if v, ok := st.vals[ph]; ok {
+					env[fmt.Sprintf("L%d_%s", li.ordinal, li.spec.Names[i])] = v
+				}
+			}
+			i++
+		}
+	}
 	e := &Env{st: st, old: fr.entry, vars: env, fr: fr}
 	var all []*Clause
 	if ctr != nil {
@@ -1140,4 +1174,12 @@ func (fr *FnRun) tryEvalBool(x *Expr, env *Env) (t *Term, msg string) {
 		}
 	}()
 	return fr.evalBool(x, env), ""
+}
+
+// exprConjuncts splits a contract expression at top-level &&.
+func exprConjuncts(e *Expr) []*Expr {
+	if e.Kind == "bin" && e.Op == "&&" {
+		return append(exprConjuncts(e.X), exprConjuncts(e.Y)...)
+	}
+	return []*Expr{e}
 }
